@@ -1,16 +1,23 @@
-(* EngineSafetyFinal.v -- the safety theorem of EngineSafety.v with its hypotheses discharged as
-   far as they are proved:
-     HeaderRestartMonotone  is proved (EngineSafetyRestart.header_restart_monotone);
-     LongCodesFit           remains a hypothesis here unless EngineSafetyLongFit.v proves it
-                            (see that file for what is established). *)
+(* EngineSafetyFinal.v -- the safety theorem of EngineSafety.v with both of its hypotheses
+   discharged:
+     HeaderRestartMonotone  proved in EngineSafetyRestart.v   (header_restart_monotone)
+     LongCodesFit           proved in EngineSafetyLongFit.v   (long_codes_fit)
+
+   erun_safe: for every bufio size up to 90000, every source that delivers at most 262141 bytes
+   (values < 256) in any chunking and ends with EOF or an error, and every sequence of Read calls
+   (any buffer sizes), no Read of the decoder model RModel/Engine.v ends with RPanic (a Go
+   bounds check / slice check / negative shift would fail) or RStuck (a loop of the model ran out
+   of fuel).  The two numeric side conditions are needed for the fuel of the model (witnesses of
+   RStuck without them are described in EngineSafety.v); the byte condition is needed because
+   the model's 64-bit load is an arithmetic sum (EngineSafetyRestartCex.v). *)
 From Verif Require Import Engine EngineTables.
-From Verif Require Import Base EngineSafetyBuf EngineSafetyHeader EngineSafety EngineSafetyRestart.
+From Verif Require Import Base EngineSafetyBuf EngineSafetyHeader EngineSafety EngineSafetyRestart
+  EngineSafetyLongFit.
 From Coq Require Import List NArith ZArith Bool.
 Import ListNotations.
 Open Scope N_scope.
 
-(* Memory safety and termination of the decoder model, assuming only that the long-code groups of
-   every accepted literal/length code fit longCodeLookup[1264]. *)
+(* with the long-code hypothesis kept explicit *)
 Theorem erun_no_panic_if_long_codes_fit :
   LongCodesFit ->
   forall bufsize chunks term reads,
@@ -21,4 +28,25 @@ Proof.
   intros HLF. exact (erun_no_panic HLF header_restart_monotone).
 Qed.
 
+(* unconditional *)
+Theorem erun_safe :
+  forall bufsize chunks term reads,
+    bufsize <= 90000 -> src_total chunks <= 262141 ->
+    Forall (Forall (fun b => b < 256)) chunks ->
+    Forall (fun br => snd br <> RPanic /\ snd br <> RStuck) (erun bufsize chunks term reads).
+Proof.
+  exact (erun_no_panic long_codes_fit header_restart_monotone).
+Qed.
+
+(* the statement of the task, with the two fuel side conditions added *)
+Corollary erun_no_panic_task :
+  forall bufsize chunks term reads,
+    16 <= bufsize -> bufsize <= 90000 -> src_total chunks <= 262141 ->
+    Forall (Forall (fun b => b < 256)) chunks ->
+    Forall (fun br => snd br <> RPanic /\ snd br <> RStuck) (erun bufsize chunks term reads).
+Proof.
+  intros bufsize chunks term reads _. apply erun_safe.
+Qed.
+
 Print Assumptions erun_no_panic_if_long_codes_fit.
+Print Assumptions erun_safe.
